@@ -82,6 +82,23 @@ def run(tier):
             check.violation({"class": "crash-under-concurrency", "site": r.get("site")}, {"observed": r})
         elif r.get("bad"):
             check.violation({"class": "concurrent-result-differs", "what": r["bad"][0]["what"]}, {"observed": r["bad"]})
+    # (2a) cold start: in a FRESH process the very first use of the library is concurrent (16 pipelines released at once; resolver-heavy
+    # files with reserved words, special names, imports); only afterwards the sequential results are computed and compared.  Tables
+    # built lazily on first use without synchronisation show here and nowhere else.
+    cold_in = [{"src": s, "ver": "7.4"} for s in c14.sample_sources(check, tier, 200)] + \
+              [{"src": "<?php namespace App%d; function f%d(int $a, ?string $b, self $c): void { return null; } class C%d { public function m(object $o, iterable $i): bool { return true || false; } }" % (k, k, k),
+                "ver": "7.4"} for k in range(40)] + gen[:40]
+    ct = [{"op": "cold_start", "inputs": rng.sample(cold_in, 16), "limit_ms": 60000} for _ in range(24 if tier == "quick" else 200)]
+    wpf = core.WorkerPool(core.build_worker(race=True), n=4, env=env, chunk=1, idle_timeout=120, fresh=True)
+    for t, r in zip(ct, wpf.run(ct)):
+        check.count(r.get("pipelines", 1))
+        if r.get("crash") and (r.get("exit") == 66 or "DATA RACE" in (r.get("stderr") or "")):
+            check.violation({"class": "data-race", "site": race_site(r.get("stderr"))}, {"stderr": r.get("stderr"), "phase": "cold start"})
+        elif r.get("panic") or r.get("hang") or r.get("crash"):
+            check.violation({"class": "crash-under-concurrency", "site": r.get("site")}, {"observed": r, "phase": "cold start"})
+        elif r.get("bad"):
+            check.violation({"class": "concurrent-result-differs", "what": r["bad"][0]["what"]}, {"observed": r["bad"], "phase": "cold start"})
+    check.cov["cold_start_processes"] = len(ct)
     # (2b) sequential histories: parsing the same input again, after other inputs, gives the identical tree, and the first tree is untouched
     wps = core.WorkerPool(core.build_worker())
     for t, r in progs.retain_results(check, wps, inputs.programs(check, tier), core.seed() + 11, 150 if tier == "quick" else 2000):
